@@ -7,7 +7,9 @@ from .common import TRUSTED, Ctx
 def check(rep):
     ctx = Ctx(rep)
     ER.rule_grid(ctx)
-    ER.rule_choice_search(ctx)
+    from . import choicerules as CR
+    if not CR.report(ctx, "C03", facets=("interior", "tie", "rounding")):
+        ER.rule_choice_search(ctx)
     PR.rule_compiles(ctx, rid="C03.SHAPE-COMPILES", strict=False)
     # population and weights position-aligned, in declared order, passed as weights=
     n = PR.rule_translation(ctx, rid="C03.ALIGNED-LISTS", focus="groups")
